@@ -182,16 +182,18 @@ PROPS = {
                       "(1..9 digits, a tenth digit makes the fraction unreadable, value < 1 s), C12_values_wellformed (every "
                       "accepted date / date-time / instant / duration is in range and valid), C12_plain_rejects_Z, "
                       "C12_instant_requires, C12_annotation_rules (unknown critical key, critical duplicate calendars, first "
-                      "calendar wins), C12_digitsN, C12_month_code_zero, C12_short_forms. Tie: grammar-generated strings in every "
-                      "syntactic variant, 1-2 character mutations and cross-type strings (~26k/run) through FromStr of PlainDate, "
-                      "PlainDateTime, PlainTime, PlainYearMonth, PlainMonthDay, Instant, Duration, UtcOffset, MonthCode: verdict AND "
-                      "value compared with the reader.",
+                      "calendar wins), C12_digitsN, C12_month_code_zero, C12_short_forms, C12_zone_offset_exact / "
+                      "C12_zone_annotation_decides (a time-zone string names its zone by the annotation, else Z, else an offset "
+                      "that is exactly the one written - an offset with seconds names no zone). Tie: grammar-generated strings in "
+                      "every syntactic variant, 1-2 character mutations and cross-type strings (~30k/run) through FromStr of "
+                      "PlainDate, PlainDateTime, PlainTime, PlainYearMonth, PlainMonthDay, Instant, Duration, UtcOffset, MonthCode "
+                      "and TimeZone::try_from_str: verdict AND value compared with the reader.",
         "level_note": "Trusted: Lean kernel (+propext, Classical.choice, Quot.sound); Spec/Grammar*.lean as my reading of the "
                       "grammar (U+2212 is accepted as a minus sign, as in the grammar version the crate's parser follows; the "
                       "crate's own UtcOffset reader is ASCII-only). The implementation's parser is the `ixdtf` 0.4.0 dependency plus "
                       "temporal_rs' rules: six leniencies/strictnesses of ixdtf are recorded as known findings by region. "
-                      "ZonedDateTime / RelativeTo strings are exercised in C13 (tz_str) and the C03 sweep; Calendar::from_str and "
-                      "TimeZone::try_from_str reuse the same readers (swept in C03, round-tripped in C11).",
+                      "ZonedDateTime / RelativeTo strings are exercised in C13 (tz_str, tz_rel) and the C03 sweep; Calendar::from_str "
+                      "reuses the same readers (C16 cal_id; swept in C03).",
         "why_difference_is_violation":
             "The reader is the grammar (C12_* theorems state its type rules); the implementation accepted a string outside the "
             "grammar, rejected one inside it, or assigned a different value.",
